@@ -183,7 +183,14 @@ def signature(ref, name):
     return ('struct', lay.size, lay.align, lay.kind, lay.size % 8, tailpad, first, lastf, forms, sizes, blocks, cpp8)
 
 
-def composite_pool(tier, seed=0):
+def coarse_signature(sig):
+    if sig[0] == 'union':
+        return sig[:5]
+    (_, size, align, kind, size8, tailpad, first, lastf, forms, sizes, blocks, cpp8) = sig
+    return ('struct', align, kind, size8, tailpad > 0, lastf, cpp8, len(blocks) > 1)
+
+
+def composite_pool(tier, seed=0, coarse=False):
     """Composite helper types used as element types of level-2 members.
     Returns registry name->def including base helpers; every composite has a
     canonical name derived from its definition text."""
@@ -199,6 +206,8 @@ def composite_pool(tier, seed=0):
         d = S.Struct('T', expand(seq))
         ref = R.Ref(list(BASE_HELPERS.values()) + [d])
         sig = signature(ref, 'T')
+        if coarse:
+            sig = coarse_signature(sig)
         if sig not in by_sig:
             by_sig[sig] = []
             order.append(sig)
@@ -249,6 +258,8 @@ def composite_pool(tier, seed=0):
     keep = []
     for u in unames:
         sig = signature(ref_all, u)
+        if coarse:
+            sig = coarse_signature(sig)
         if sig in seen and tier != 'thorough':
             del reg[u]
             continue
@@ -276,10 +287,11 @@ def composite_symbols(ref, name):
 
 
 SPACERS = [('plain', 'u8'), ('plain', 'u16'), ('plain', 'u64'), ('dynamic', 'u8')]
+SPACERS_COARSE = [('plain', 'u8'), ('dynamic', 'u8')]
 
 
-def level2(tier, seed=0):
-    reg, snames, unames = composite_pool(tier, seed)
+def level2(tier, seed=0, coarse=False):
+    reg, snames, unames = composite_pool(tier, seed, coarse)
     ref = R.Ref(list(reg.values()))
     seen = set()
     alias = [('plain', 'TU16'), ('opt', 'TTU16'), ('dynamic', 'TTU16'), ('plain', 'TE'), ('fixed', 'TE', 2)]
@@ -287,7 +299,7 @@ def level2(tier, seed=0):
         mid, last = composite_symbols(ref, name)
         for c in mid + last:
             seqs = [(c,)]
-            for sp in SPACERS:
+            for sp in (SPACERS if not (coarse and tier == 'quick') else SPACERS_COARSE):
                 seqs.append((sp, c))
                 if c in mid:
                     seqs.append((c, sp))
@@ -303,6 +315,12 @@ def level2(tier, seed=0):
                 if c in mid:
                     seqs.append((('plain', 'u8'), c, ('plain', 'u64')))
                     seqs.append((c, ('dynamic', 'u8'), ('plain', 'u16')))
+                    ends_block = c[0] in ('dynamic', 'ext') or (c[0] == 'plain' and ref.layout(name).kind != R.K_FIXED)
+                    if ends_block:
+                        # a block after c whose first field is less aligned than a later one
+                        seqs.append((c, ('plain', 'u8'), ('plain', 'u64')))
+                        seqs.append((c, ('plain', 'u16'), ('plain', 'u32')))
+                        seqs.append((c, ('plain', 'u8'), ('opt', 'u16')))
             for seq in seqs:
                 st = mk_state('struct', seq, reg)
                 if st.key not in seen:
@@ -322,10 +340,10 @@ def level2(tier, seed=0):
             yield st
 
 
-def level3(tier, seed=0):
+def level3(tier, seed=0, coarse=False):
     """Templates: dynamic struct inside dynamic array of dynamic structs, typedef
     chains, union inside optional inside struct inside array."""
-    reg, snames, unames = composite_pool('quick', seed)
+    reg, snames, unames = composite_pool('quick', seed, coarse)
     ref = R.Ref(list(reg.values()))
     dyn = [n for n in snames if ref.layout(n).kind == R.K_DYNAMIC]
     fix = [n for n in snames if ref.layout(n).kind == R.K_FIXED]
@@ -372,7 +390,7 @@ def level3(tier, seed=0):
                     yield st
 
 
-def all_states(tier, seed=0, levels=(1, 2, 3), cells=True):
+def all_states(tier, seed=0, levels=(1, 2, 3), cells=True, coarse=False):
     seen = set()
     gens = []
     if cells:
@@ -380,9 +398,9 @@ def all_states(tier, seed=0, levels=(1, 2, 3), cells=True):
     if 1 in levels:
         gens.append(level1(tier))
     if 2 in levels:
-        gens.append(level2(tier, seed))
+        gens.append(level2(tier, seed, coarse))
     if 3 in levels:
-        gens.append(level3(tier, seed))
+        gens.append(level3(tier, seed, coarse))
     for g in gens:
         for st in g:
             if st.key not in seen:
